@@ -249,5 +249,5 @@ def check_oem(case, ctx):
 def suites(tier):
     return [
         Suite("identities", check_oem, strategy=oem_cases(),
-              examples={"quick": 1100, "thorough": 20000}),
+              examples={"quick": 1100, "thorough": 12000}),
     ]
